@@ -51,6 +51,10 @@ func runC04(c *wk.Ctx) {
 		c.Begin(0, "cross-namespace default loops")
 		c04CrossNamespace(c, "C04")
 	}
+	if c.Mine(3) {
+		c.Begin(3, "list properties held in array fields")
+		c04ArrayFields(c)
+	}
 	if c.Mine(2) {
 		c.Begin(2, "chains of objects with two defaulted references each")
 		c04DefaultChains(c, "C04")
@@ -393,3 +397,53 @@ func c04DefaultChains(c *wk.Ctx, propID string) {
 }
 
 var def2 = "[{}, {}]"
+
+// c04Arrays: list properties held in fixed-size ARRAY fields of a struct. Lists of every length (shorter, exact,
+// longer), of wrong item types, defaults that are too short, below a reference in a list: errors, never panics.
+type c04Arr struct {
+	Arr  [3]float64 `json:"arr"`
+	Pair [2]string  `json:"pair"`
+	N    *int64     `json:"n"`
+}
+
+func c04ArrayFields(c *wk.Ctx) {
+	short := "[1.5]"
+	mk := func(def *string) *schema.ScopeSchema {
+		return schema.NewScopeSchema(
+			schema.NewObjectSchema("Root", map[string]*schema.PropertySchema{
+				"one":  schema.NewPropertySchema(schema.NewRefSchema("A", nil), nil, false, nil, nil, nil, nil, nil),
+				"many": schema.NewPropertySchema(schema.NewListSchema(schema.NewRefSchema("A", nil), nil, nil), nil, false, nil, nil, nil, nil, nil)}),
+			schema.NewStructMappedObjectSchema[c04Arr]("A", map[string]*schema.PropertySchema{
+				"arr":  schema.NewPropertySchema(schema.NewListSchema(schema.NewFloatSchema(nil, nil, nil), nil, nil), nil, false, nil, nil, nil, def, nil),
+				"pair": schema.NewPropertySchema(schema.NewListSchema(schema.NewStringSchema(nil, nil, nil), nil, nil), nil, false, nil, nil, nil, nil, nil),
+				"n":    schema.NewPropertySchema(schema.NewIntSchema(nil, nil, nil), nil, false, nil, nil, nil, nil, nil)}))
+	}
+	lists := []any{[]any{}, []any{1.5}, []any{1.5, 2.5}, []any{1.5, 2.5, 3.5}, []any{1.5, 2.5, 3.5, 4.5}, []any{"a", "b"}, []any{"a", "b", "c"}, []any{nil, nil, nil}, "x", nil, []float64{1}, [2]float64{1, 2}}
+	for di, def := range []*string{nil, &short} {
+		var t *schema.ScopeSchema
+		c.Note("array fields: building the scope")
+		if p, _, _, _ := wk.Guard(func() { t = mk(def) }); p {
+			c.Count("array_field_scopes_refused")
+			continue
+		}
+		for _, arr := range lists {
+			for _, pair := range lists {
+				a := map[string]any{"arr": arr, "pair": pair}
+				if arr == nil {
+					delete(a, "arr")
+				}
+				for wi, in := range []any{map[string]any{"one": a}, map[string]any{"many": []any{a, map[any]any{"pair": pair}}}, map[any]any{"one": map[any]any{"arr": arr}}} {
+					for _, op := range c04Ops[:2] {
+						c.Note(fmt.Sprintf("%s on a struct with array fields (default %d, wrapping %d) arr=%s pair=%s", op.name, di, wi, dynType(arr), dynType(pair)))
+						if p, site, msg, _ := wk.Guard(func() { _ = op.call(t, gen.CopyRaw(in)) }); p {
+							c.Violation("C04:panic:"+op.name+":"+site, fmt.Sprintf("%s panicked on a list for an array field: %s", op.name, msg), map[string]any{"input": fmt.Sprintf("%#v", in), "default_of_arr": def})
+						}
+						c.Count("calls")
+						c.Count("array_field_calls")
+					}
+				}
+			}
+		}
+		c.Eval(wk.Hash64("array-fields", fmt.Sprint(di)), true)
+	}
+}
